@@ -83,7 +83,6 @@ func genExprCase(t *rapid.T) Case {
 	if m := rapid.IntRange(0, 9).Draw(t, "nmut"); m >= 7 {
 		e = gen.Mutate(t, e, m-6)
 	}
-	e = gen.BoundIndices(e)
 	c := Case{Expr: e, In: "yaml", Out: "yaml", Gen: "grammar"}
 	switch rapid.IntRange(0, 9).Draw(t, "ink") {
 	case 0:
@@ -98,6 +97,7 @@ func genExprCase(t *rapid.T) Case {
 		c.Out = rapid.SampledFrom(outFormats).Draw(t, "out")
 	}
 	c.EvalAll = rapid.IntRange(0, 4).Draw(t, "ea") == 0
+	c.Expr, c.Input = gen.BoundCase(c.Expr, c.Input)
 	return c
 }
 
@@ -134,7 +134,7 @@ func genBytesCase(t *rapid.T) Case {
 	if rapid.Bool().Draw(t, "valid_expr") {
 		c.Expr = rapid.SampledFrom(smallExprs).Draw(t, "sexpr")
 	}
-	c.Expr = gen.BoundIndices(c.Expr)
+	c.Expr, c.Input = gen.BoundCase(c.Expr, c.Input)
 	return c
 }
 
